@@ -35,7 +35,7 @@ MANIFEST = {
         note=_COMMON_NOTE, ref="§5 C03, §4.3, §9.1"),
     "C05": dict(
         technique="Lean 4 proof: ordering invariant over all schedules under the property's own grace-period premise (pop order sorted by timestamp); extraction of the sample-then-refresh order with a negative witness for the pinned order (F5); differential correspondence incl. registration inside the sampling window and inside the clock read",
-        text=_SCOPE + "Proved: C05_pop_order / C05_statement_order — if every accepted record satisfies enqueue time <= timestamp + grace (the property's premise, checked on the final state), the sequence of popped statements (hence of writes at every sink) is sorted by timestamp, for grace != 0 and the extracted fact that the context cache is refreshed after ts_now is sampled; C05_order_continues from any state satisfying the invariant. Negative witnesses by `decide`: the pinned order (refresh before the clock read, F5, repaired) pops 1000, 1101, 1100 under the premise; a call stalled longer than the grace period breaks premise and order. Obligations: stop on a future timestamp, do-while read loop, strict minimum, both batch guards (extracted).",
+        text=_SCOPE + "Proved: C05_pop_order / C05_statement_order — if every accepted record satisfies enqueue time <= timestamp + grace (the property's premise, checked on the final state), the sequence of popped statements (hence of writes at every sink) is sorted by timestamp, for grace != 0 and the extracted fact that the context cache is refreshed after ts_now is sampled; C05_order_continues from any state satisfying the invariant. Negative witnesses by `decide`: the pinned order (refresh before the clock read, F5, repaired) pops 1000, 1101, 1100 under the premise; a call stalled longer than the grace period breaks premise and order. Obligations: stop on a future timestamp, do-while read loop, strict minimum, both batch guards (extracted). Unbounded queue: the backend model carries the bounded queue, so the ordering theorem is proved for it; what the argument needs from the unbounded queue — a read pass misses nothing that is committed — is proved on the C02 chain model (Uspsc.C05_unbounded_read_complete: with the retry rule of _read_unbounded_frontend_queue a read answers nothing only when every buffer from the consumer's to the producer's is drained, otherwise the oldest unread committed record; decide witnesses for both values of the rule = finding F25, found by the thorough tier on the unbounded H2 builds and repaired) and tied by the rp operation of the H1 harness on the real queue; end to end the unbounded builds run under the property oracles only.",
         note=_COMMON_NOTE + " rdtsc→epoch conversion is not modelled (System clock in the harness).", ref="§5 C05, §9.1, Appendix A.2"),
     "C06": dict(
         technique="Lean 4 proof: flag-after-flush invariants on the backend model for every schedule (flag only after the Flush event was popped, own statements popped first, every sink of every logger not yet erased flushed before the flag, other threads' strictly older statements popped under C05's hypotheses, request never dropped or counted); witnesses for F6 and F12; differential correspondence + oracle at the moment flush_log returns",
